@@ -952,7 +952,7 @@ Qed.
 Lemma monitor_step_core mc cc s op ob : ma_core (fst (monitor_step mc cc s op ob)) = next_state (ma_core s) op ob.
 Proof.
   unfold monitor_step. destruct (mon_C07 cc (ma_st s) (ms_marked (ma_core s)) op ob) as [st' v07].
-  destruct (mon_C08 cc (ma_lt s) op ob) as [lt' v08]. destruct (mon_C15 cc (ma_core s) (ma_rtt s) op ob) as [rt' v15].
+  destruct (mon_C08 cc (ma_lt s) op ob) as [lt' v08]. destruct (mon_C15 mc cc (ma_core s) (ma_rtt s) op ob) as [rt' v15].
   reflexivity.
 Qed.
 Lemma monitor_step_verdicts mc cc s op ob k b cl :
@@ -964,7 +964,7 @@ Lemma monitor_step_verdicts mc cc s op ob k b cl :
   /\ (k = 17 -> b = mon_C17 mc (ma_core s) op ob).
 Proof.
   unfold monitor_step. destruct (mon_C07 cc (ma_st s) (ms_marked (ma_core s)) op ob) as [st' v07].
-  destruct (mon_C08 cc (ma_lt s) op ob) as [lt' v08]. destruct (mon_C15 cc (ma_core s) (ma_rtt s) op ob) as [rt' v15].
+  destruct (mon_C08 cc (ma_lt s) op ob) as [lt' v08]. destruct (mon_C15 mc cc (ma_core s) (ma_rtt s) op ob) as [rt' v15].
   cbn [snd In]. intros Hin.
   repeat (destruct Hin as [Hin|Hin]; [inversion Hin; subst; repeat split; intros Hk; (reflexivity || discriminate Hk)|]).
   destruct Hin.
@@ -975,7 +975,7 @@ Lemma monitor_step_has mc cc s op ob k :
   In k [5; 6; 11; 12; 17] -> exists b cl, In (k, b, cl) (snd (monitor_step mc cc s op ob)).
 Proof.
   unfold monitor_step. destruct (mon_C07 cc (ma_st s) (ms_marked (ma_core s)) op ob) as [st' v07].
-  destruct (mon_C08 cc (ma_lt s) op ob) as [lt' v08]. destruct (mon_C15 cc (ma_core s) (ma_rtt s) op ob) as [rt' v15].
+  destruct (mon_C08 cc (ma_lt s) op ob) as [lt' v08]. destruct (mon_C15 mc cc (ma_core s) (ma_rtt s) op ob) as [rt' v15].
   cbn [snd]. intros Hk. cbn [In] in Hk.
   destruct Hk as [<-|[<-|[<-|[<-|[<-|[]]]]]]; eexists _, _; cbn [In]; auto 12.
 Qed.
